@@ -36,16 +36,19 @@ func (s *scope) lookup(varname string) string {
 	return ""
 }
 
-func (s *scope) pushForRange(loopVar string) (lVar, lLimit string) {
+func (s *scope) pushForRange(loopVar string) (lVar, lInit, lStep, lCount, lIndex string) {
 	s.n++
 	n := strconv.Itoa(s.n)
 	s.stack = append(s.stack, map[string]string{
 		loopVar:   loopVar + n,
 		"__limit": loopVar + "Limit" + n,
-		"__index": loopVar + n,
+		"__index": loopVar + "Index" + n,
 	})
 	return loopVar + n,
-		loopVar + "Limit" + n
+		loopVar + "Init" + n,
+		loopVar + "Step" + n,
+		loopVar + "Limit" + n,
+		loopVar + "Index" + n
 }
 
 func (s *scope) pushForEach(loopVar string) (lVar, lList, lLen, lIndex string) {
